@@ -625,7 +625,7 @@ class Run(object):
         self.bump("helper:arma2psd")
         self.checked_reads += 1
         exp = refmodel.render(np.asarray(two, dtype=float), "centerdc")
-        if len(cen) != len(exp) or not exact_equal(np.asarray(cen, dtype=float), exp):
+        if len(cen) != len(exp) or not close(np.asarray(cen, dtype=float), exp, rtol=1e-9):
             return Violation("helper", idx, "arma2psd(sides='centerdc', NFFT=%d) is not the default (two-sided) "
                              "output re-ordered onto the centre-DC axis" % op["NFFT"])
         return None
